@@ -597,7 +597,72 @@ fn run_loop_case(reds: &[RCfg], n_subs: usize, cap: usize, actions: &[Ac]) -> Op
     }
     None
 }
+// a get_state() that overlaps the write-back of a reduced state (the reader is parked inside State::clone, holding the
+// state cell): the reduced state must not be lost (C01: every action starts from the state left by the previous one)
+thread_local! {
+    static PARK_IN_CLONE: std::cell::RefCell<Option<(std::sync::mpsc::Sender<()>, std::sync::mpsc::Receiver<()>)>> = std::cell::RefCell::new(None);
+}
+#[derive(Debug, PartialEq)]
+struct BigSt(Vec<i64>);
+impl Clone for BigSt {
+    fn clone(&self) -> Self {
+        let hook = PARK_IN_CLONE.with(|p| p.borrow_mut().take());
+        if let Some((entered, gate)) = hook {
+            let _ = entered.send(());
+            let _ = gate.recv_timeout(Duration::from_secs(5));
+        }
+        BigSt(self.0.clone())
+    }
+}
+fn run_loop_readerrace() -> Option<(String, String, String)> {
+    use std::sync::mpsc;
+    let (in_reduce_tx, in_reduce_rx) = mpsc::channel::<()>();
+    let in_reduce_tx = Mutex::new(in_reduce_tx);
+    let (reduce_gate_tx, reduce_gate_rx) = mpsc::channel::<()>();
+    let reduce_gate_rx = Mutex::new(reduce_gate_rx);
+    let store = StoreBuilder::<BigSt, i64>::new(BigSt(vec![]))
+        .with_reducer(Box::new(crate::reducer::FnReducer::from(move |s: &BigSt, a: &i64| {
+            if *a == 1 {
+                let _ = in_reduce_tx.lock().unwrap().send(());
+                let _ = reduce_gate_rx.lock().unwrap().recv_timeout(Duration::from_secs(10));
+            }
+            let mut v = s.0.clone();
+            v.push(*a);
+            DispatchOp::Dispatch(BigSt(v), None)
+        })))
+        .build()
+        .unwrap();
+    store.dispatch(1).unwrap();
+    if in_reduce_rx.recv_timeout(Duration::from_secs(10)).is_err() {
+        let _ = reduce_gate_tx.send(());
+        store.stop();
+        return None;
+    }
+    let (entered_tx, entered_rx) = mpsc::channel::<()>();
+    let (reader_gate_tx, reader_gate_rx) = mpsc::channel::<()>();
+    let s2 = store.clone();
+    let reader = std::thread::spawn(move || {
+        PARK_IN_CLONE.with(|p| *p.borrow_mut() = Some((entered_tx, reader_gate_rx)));
+        let _ = s2.get_state();
+    });
+    let parked = entered_rx.recv_timeout(Duration::from_secs(10)).is_ok();
+    let _ = reduce_gate_tx.send(());
+    // the reducer reaches its write-back while the reader still holds the cell
+    std::thread::sleep(Duration::from_millis(400));
+    let _ = reader_gate_tx.send(());
+    let _ = reader.join();
+    store.dispatch(2).unwrap();
+    store.stop();
+    let fin = store.get_state();
+    if parked && fin != BigSt(vec![1, 2]) {
+        return Some(("O-C01-loop-inv-state".into(), "get_state() after stop() == [1, 2] (a reader was inside get_state() while action 1 was written back)".into(), format!("{:?}", fin.0)));
+    }
+    None
+}
 fn suite_loop() -> Option<String> {
+    if let Some((ob, exp, got)) = run_loop_readerrace() {
+        return Some(found("loop", &ob, "loop readerrace".to_string(), exp, got));
+    }
     let red_cfgs: Vec<Vec<RCfg>> = vec![
         vec![RCfg { dispatch: true, effect: 0 }],
         vec![RCfg { dispatch: false, effect: 0 }],
@@ -622,6 +687,9 @@ fn suite_loop() -> Option<String> {
     None
 }
 fn replay_loop(case: &str) -> Option<String> {
+    if case.contains("readerrace") {
+        return run_loop_readerrace().map(|(ob, exp, got)| found("loop", &ob, case.to_string(), exp, got));
+    }
     let (m, _, _) = parse_pipeline(case);
     let mut cap = 16;
     let mut acts: Vec<Ac> = vec![];
@@ -1412,7 +1480,66 @@ fn run_twostores_case(same_name: bool) -> Option<(String, String, String)> {
     }
     None
 }
+// store A keeps many long-running tasks going; store B's own task must still run (C19: no shared workers)
+fn run_twostores_sharedpool() -> Option<(String, String, String)> {
+    use std::sync::mpsc;
+    use std::sync::Condvar;
+    let mk = |name: &str| {
+        StoreBuilder::<St, Ac>::new(0)
+            .with_name(name.to_string())
+            .with_reducer(Box::new(crate::reducer::FnReducer::from(|s: &St, a: &Ac| DispatchOp::Dispatch(s + a, None))))
+            .build()
+            .unwrap()
+    };
+    let a = mk("store");
+    let b = mk("store");
+    let gate = Arc::new((Mutex::new(false), Condvar::new()));
+    for _ in 0..2048 {
+        let g = gate.clone();
+        <Arc<StoreImpl<St, Ac>> as Dispatcher<Ac>>::dispatch_task(&a, Box::new(move || {
+            let (m, cv) = &*g;
+            let mut open = m.lock().unwrap();
+            while !*open {
+                let (o, t) = cv.wait_timeout(open, Duration::from_secs(20)).unwrap();
+                open = o;
+                if t.timed_out() {
+                    break;
+                }
+            }
+        }));
+    }
+    let (tx, rx) = mpsc::channel::<()>();
+    let tx = Mutex::new(tx);
+    <Arc<StoreImpl<St, Ac>> as Dispatcher<Ac>>::dispatch_task(&b, Box::new(move || {
+        let _ = tx.lock().unwrap().send(());
+    }));
+    let ran = rx.recv_timeout(Duration::from_secs(5)).is_ok();
+    // a thunk of B, and an action of B, while A is still busy
+    let (tx2, rx2) = mpsc::channel::<bool>();
+    let tx2 = Mutex::new(tx2);
+    <Arc<StoreImpl<St, Ac>> as Dispatcher<Ac>>::dispatch_thunk(&b, Box::new(move |d| {
+        let _ = tx2.lock().unwrap().send(d.dispatch(5).is_ok());
+    }));
+    let thunk_ran = rx2.recv_timeout(Duration::from_secs(5)).unwrap_or(false);
+    {
+        let (m, cv) = &*gate;
+        *m.lock().unwrap() = true;
+        cv.notify_all();
+    }
+    b.stop();
+    a.stop();
+    if !ran {
+        return Some(("O-C11-dispatch_task-once".into(), "a task handed to store B runs although 2048 tasks of store A are blocked".into(), "it did not run within 5 s".into()));
+    }
+    if !thunk_ran || b.get_state() != 5 {
+        return Some(("O-C11-dispatch_thunk-once".into(), "a thunk handed to store B runs and its dispatch(5) is reduced although 2048 tasks of store A are blocked".into(), format!("thunk ran: {}, B's state {}", thunk_ran, b.get_state())));
+    }
+    None
+}
 fn suite_twostores() -> Option<String> {
+    if let Some((ob, exp, got)) = run_twostores_sharedpool() {
+        return Some(found("twostores", &ob, "twostores sharedpool".to_string(), exp, got));
+    }
     for same in [true, false] {
         if let Some((ob, exp, got)) = run_twostores_case(same) {
             return Some(found("twostores", &ob, format!("twostores same_name={}", same as u8), exp, got));
@@ -1421,6 +1548,9 @@ fn suite_twostores() -> Option<String> {
     None
 }
 fn replay_twostores(case: &str) -> Option<String> {
+    if case.contains("sharedpool") {
+        return run_twostores_sharedpool().map(|(ob, exp, got)| found("twostores", &ob, case.to_string(), exp, got));
+    }
     let same = case.contains("same_name=1");
     run_twostores_case(same).map(|(ob, exp, got)| found("twostores", &ob, case.to_string(), exp, got))
 }
@@ -1593,7 +1723,82 @@ fn run_channeled_overfill(cap: usize, default_api: bool) -> Option<(String, Stri
     }
     None
 }
+// unsubscribe() of a lagging channeled subscriber B called from the callback (delivery thread) of another channeled
+// subscriber A of the same store: when it returns everything queued for B has been delivered, nothing afterwards (C10)
+fn run_channeled_crossunsub() -> Option<(String, String, String)> {
+    use std::sync::mpsc;
+    struct Lag {
+        got: Arc<Mutex<Vec<Ac>>>,
+        gate: Mutex<mpsc::Receiver<()>>,
+    }
+    impl Subscriber<St, Ac> for Lag {
+        fn on_notify(&self, _s: &St, a: &Ac) {
+            if *a == 1 {
+                let _ = self.gate.lock().unwrap().recv_timeout(Duration::from_secs(10));
+            }
+            self.got.lock().unwrap().push(*a);
+        }
+    }
+    struct Killer {
+        victim: Mutex<Option<Box<dyn Subscription>>>,
+        victim_got: Arc<Mutex<Vec<Ac>>>,
+        out: Mutex<mpsc::Sender<Vec<Ac>>>,
+    }
+    impl Subscriber<St, Ac> for Killer {
+        fn on_notify(&self, _s: &St, a: &Ac) {
+            if *a == 3 {
+                let h = self.victim.lock().unwrap().take();
+                if let Some(h) = h {
+                    h.unsubscribe();
+                    let snap = self.victim_got.lock().unwrap().clone();
+                    let _ = self.out.lock().unwrap().send(snap);
+                }
+            }
+        }
+    }
+    let store = StoreBuilder::<St, Ac>::new(0)
+        .with_reducer(Box::new(crate::reducer::FnReducer::from(|s: &St, a: &Ac| DispatchOp::Dispatch(s + a, None))))
+        .build()
+        .unwrap();
+    let got_b = Arc::new(Mutex::new(vec![]));
+    let (gate_tx, gate_rx) = mpsc::channel::<()>();
+    let hb = match store.subscribed_with(8, BackpressurePolicy::BlockOnFull, Box::new(Lag { got: got_b.clone(), gate: Mutex::new(gate_rx) })) {
+        Ok(h) => h,
+        Err(_) => return None,
+    };
+    let (out_tx, out_rx) = mpsc::channel::<Vec<Ac>>();
+    let ha = match store.subscribed_with(8, BackpressurePolicy::BlockOnFull, Box::new(Killer { victim: Mutex::new(Some(hb)), victim_got: got_b.clone(), out: Mutex::new(out_tx) })) {
+        Ok(h) => h,
+        Err(_) => return None,
+    };
+    for a in 1..=3 {
+        store.dispatch(a).unwrap();
+    }
+    // give an early return 1 s to show itself, then let the lagging subscriber go
+    let early = out_rx.recv_timeout(Duration::from_millis(1000)).ok();
+    let _ = gate_tx.send(());
+    let snap = match early {
+        Some(s) => Some(s),
+        None => out_rx.recv_timeout(Duration::from_secs(10)).ok(),
+    };
+    ha.unsubscribe();
+    store.stop();
+    let fin = got_b.lock().unwrap().clone();
+    match snap {
+        None => None, // no report within the time limit: no verdict
+        Some(snap) => {
+            if snap != vec![1, 2, 3] || fin != snap {
+                Some(("O-C10-release-order".into(), "when unsubscribe() of the lagging subscriber returns it has received [1, 2, 3], and nothing afterwards".into(), format!("at return {:?}, finally {:?}", snap, fin)))
+            } else {
+                None
+            }
+        }
+    }
+}
 fn suite_channeled() -> Option<String> {
+    if let Some((ob, exp, got)) = run_channeled_crossunsub() {
+        return Some(found("channeled", &ob, "channeled crossunsub".to_string(), exp, got));
+    }
     for (cap, default_api) in [(1usize, false), (3, false), (0, true), (40, false)] {
         if let Some((ob, exp, got)) = run_channeled_overfill(cap, default_api) {
             return Some(found("channeled", &ob, format!("channeled overfill cap={} default_api={}", cap, default_api as u8), exp, got));
@@ -1611,6 +1816,9 @@ fn suite_channeled() -> Option<String> {
     None
 }
 fn replay_channeled(case: &str) -> Option<String> {
+    if case.contains("crossunsub") {
+        return run_channeled_crossunsub().map(|(ob, exp, got)| found("channeled", &ob, case.to_string(), exp, got));
+    }
     if case.contains("overfill") {
         let cap: usize = case.split_whitespace().find_map(|t| t.strip_prefix("cap=")).and_then(|v| v.parse().ok()).unwrap_or(1);
         let d = case.contains("default_api=1");
